@@ -807,7 +807,7 @@ func fsRepoProp() engine.AnyProp {
 }
 
 // tiingoSlowProp: a body that arrives slowly is not a body that is damaged. Once per run (shard 0)
-// a well-formed array of 3000 records is served in two parts 11 s apart (31 s in the thorough
+// a well-formed array of 3000 records is served in two parts 16 s apart (61 s in the thorough
 // tier; the pause is waiting, not a verdict) to a repository built by the factory; every record
 // must arrive.
 var slowBodyOnce sync.Once
@@ -824,9 +824,9 @@ func tiingoSlowProp() engine.AnyProp {
 			}
 			slowBodyOnce.Do(func() {
 				o.Key = "slow body"
-				pause := 11 * time.Second
+				pause := 16 * time.Second
 				if engine.Thorough() {
-					pause = 31 * time.Second
+					pause = 61 * time.Second
 				}
 				const records = 3000
 				var body bytes.Buffer
